@@ -44,11 +44,37 @@ pub enum V {
     StructVariant(&'static str, u32, &'static str, Vec<(&'static str, V)>),
     /// `Serialize` impl that returns a custom error
     Fail,
+    /// a value of an error enum whose `Serialize` comes from zlink's `ReplyError` derive
+    Derived(DErr),
+}
+
+/// Error enum with optional fields in every combination (all optional / mixed / none), serialized by the
+/// code that `#[derive(ReplyError)]` generates.
+#[derive(Debug, Clone, PartialEq, zlink_core::ReplyError)]
+#[zlink(interface = "org.example.Store", crate = "zlink_core")]
+pub enum DErr {
+    Busy { holder: Option<String>, retry_after: Option<u32> },
+    Gone { id: u32, note: Option<String> },
+    Closed,
+    Maybe { flag: Option<bool> },
+    Full { used: u64, limit: u64 },
+}
+
+pub fn rand_derr(rng: &mut Rng) -> DErr {
+    let os = |rng: &mut Rng| if rng.chance(1, 2) { Some(format!("w{}\"/", rng.below(1000))) } else { None };
+    match rng.below(5) {
+        0 => DErr::Busy { holder: os(rng), retry_after: if rng.chance(1, 2) { Some(rng.below(100) as u32) } else { None } },
+        1 => DErr::Gone { id: rng.below(1 << 20) as u32, note: os(rng) },
+        2 => DErr::Closed,
+        3 => DErr::Maybe { flag: *rng.pick(&[None, Some(true), Some(false)]) },
+        _ => DErr::Full { used: rng.next_u64(), limit: rng.next_u64() },
+    }
 }
 
 impl Serialize for V {
     fn serialize<S: Serializer>(&self, s: S) -> Result<S::Ok, S::Error> {
         match self {
+            V::Derived(e) => e.serialize(s),
             V::Bool(v) => s.serialize_bool(*v),
             V::I8(v) => s.serialize_i8(*v),
             V::I16(v) => s.serialize_i16(*v),
